@@ -342,6 +342,7 @@ def classify_qtree_miss(gd, pt):
 
 def task_locate(geo, ncols, variant, box, boxid):
     """One aid configuration on one sub-box of the point's bounding box."""
+    snorm.install(_load(), ['geometry', 'mulgrids'], zero_check=False)
     gd = GeoData(geo, ncols, need_qtree='qtree' in variant)
     mg = gd.mg
     kw, allowed, guess = variant_kwargs(gd, variant)
@@ -381,8 +382,8 @@ def task_locate(geo, ncols, variant, box, boxid):
         else:
             k = gd.index.get(r.name)
             if k is None or gd.cols[k] is not r or (allowed is not None and k not in allowed):
-                c.prove(False, 'returned object is a searchable column of the geometry')
-                fail(c, 'foreign-column', '%s %s: returned a column outside the search set' % (geo, variant), str(r))
+                if c.refute_path('returned object is a searchable column of the geometry') == 'sat':
+                    fail(c, 'foreign-column', '%s %s: returned a column outside the search set' % (geo, variant), str(r))
                 return 'foreign'
             f = gd.inside[k]
             lab = 'returned column contains the point'
@@ -409,6 +410,7 @@ def task_locate(geo, ncols, variant, box, boxid):
 
 def task_compare(geo, ncols, variants, box, boxid):
     """Several aid configurations in ONE path: results must be the same object."""
+    snorm.install(_load(), ['geometry', 'mulgrids'], zero_check=False)
     gd = GeoData(geo, ncols, need_qtree=True)
     mg = gd.mg
     kws = [(v,) + variant_kwargs(gd, v) for v in variants]
@@ -434,7 +436,7 @@ def task_compare(geo, ncols, variants, box, boxid):
             same = r is r0
             if allowed is not None and r0 is not None and gd.index[r0.name] not in allowed:
                 same = r is None      # the answer is not in the searched subset
-            if c.prove(z3.BoolVal(bool(same)), 'aid %s returns the same object as the unaided search' % v) == 'sat':
+            if c.holds(bool(same), 'aid %s returns the same object as the unaided search' % v) == 'sat':
                 m = c.failures[-1]['model']; pt = _pt(m)
                 failures.append(dict(key='column_containing_point/%s/%s/differs-from-unaided' % (gd.label, variant_class(v)),
                                      what='%s: %s gives %s, unaided search gives %s' % (geo, v, r, r0),
@@ -453,6 +455,7 @@ def task_compare(geo, ncols, variants, box, boxid):
 
 def task_block(geo, ncols, use_qtree, box, zbox, boxid):
     """block_name_containing_point on a symbolic 3-D point."""
+    snorm.install(_load(), ['geometry', 'mulgrids'], zero_check=False)
     gd = GeoData(geo, ncols, need_qtree=use_qtree)
     mg = gd.mg
     excl = gd.exclusion(box) + gd.exclusion_z(zbox)
@@ -492,7 +495,7 @@ def task_block(geo, ncols, use_qtree, box, zbox, boxid):
         else:
             b = gd.blockname.get(r)
             if b is None:
-                c.prove(False, 'returned name is a block of the geometry'); fail(c, r)
+                if c.refute_path('returned name is a block of the geometry') == 'sat': fail(c, r)
                 return 'foreign'
             f = in_block(b)
             lab = 'returned block contains the point'
@@ -676,6 +679,7 @@ def task_track(geo, orient, obox, sbox, boxid):
     """orient 'h': line (s, o) -> (e, o); 'v': line (o, s) -> (o, e).  o in obox, s in sbox, e anywhere in the outer box."""
     ld = _load()
     _install_track_stubs(ld)
+    snorm.install(ld, ['geometry', 'mulgrids'], zero_check=True)
     gd = GeoData(geo, None, need_qtree=False)
     mg = gd.mg
     ax = 0 if orient == 'h' else 1          # axis along the line
@@ -715,8 +719,8 @@ def task_track(geo, orient, obox, sbox, boxid):
         try:
             track = gd.geo.column_track(line)
         except Exception as ex:
-            c.prove(False, 'column_track raises no exception')
-            fail(c, type(ex).__name__, 'raised %s: %s' % (type(ex).__name__, ex))
+            if c.refute_path('column_track raises no exception') == 'sat':
+                fail(c, type(ex).__name__, 'raised %s: %s' % (type(ex).__name__, ex))
             return 'raised'
         listed = []
         ok_struct = True
@@ -724,35 +728,36 @@ def task_track(geo, orient, obox, sbox, boxid):
             k = gd.index.get(col.name)
             if k is None or k in listed: ok_struct = False
             else: listed.append(k)
-        if c.prove(z3.BoolVal(ok_struct), 'track lists columns of the geometry, each at most once') == 'sat':
+        if c.holds(ok_struct, 'track lists columns of the geometry, each at most once') == 'sat':
             fail(c, 'structure', 'track %r' % [t[0].name for t in track]); return 'track'
-        conj = []
         for (col, pin, pout), k in zip(track, listed):
             lo, hi, tol = rects[k]
             ent = z3.If(S <= Ee, zmax(q(lo[ax]), S), zmin(q(hi[ax]), S))
             ext = z3.If(S <= Ee, zmin(q(hi[ax]), Ee), zmax(q(lo[ax]), Ee))
-            conj.append(z3.And(lens[k] > 0, sym.lift_real(pin[ox]) == O, sym.lift_real(pout[ox]) == O,
-                               sym.lift_real(pin[ax]) == ent, sym.lift_real(pout[ax]) == ext))
-        f1 = z3.And(*conj) if conj else z3.BoolVal(True)
-        distinct.add(('seg', z3.simplify(f1).hash()))
-        if c.prove(f1, 'listed columns are crossed; entry and exit are the clip points on the line') == 'sat':
-            fail(c, 'segment', 'track %r' % [(t[0].name, str(t[1]), str(t[2])) for t in track][:3])
+            f1 = z3.And(lens[k] > 0, sym.lift_real(pin[ox]) == O, sym.lift_real(pout[ox]) == O,
+                        sym.lift_real(pin[ax]) == ent, sym.lift_real(pout[ax]) == ext)
+            distinct.add(('seg', z3.simplify(f1).hash()))
+            if c.prove(f1, 'listed column is crossed; entry and exit are the clip points on the line') == 'sat':
+                fail(c, 'segment', 'track %r' % [(t[0].name, str(t[1]), str(t[2])) for t in track][:3])
         unl = [k for k in range(len(rects)) if k not in listed]
-        f2 = z3.And(*[lens[k] <= q(rects[k][2]) for k in unl]) if unl else z3.BoolVal(True)
-        distinct.add(('missing', z3.simplify(f2).hash()))
-        if c.prove(f2, 'unlisted columns are crossed by at most 1e-3 of their longest side') == 'sat':
-            fail(c, 'column-missing', 'track %r omits a crossed column' % [t[0].name for t in track])
+        for k in unl:
+            f2 = lens[k] <= q(rects[k][2])
+            distinct.add(('missing', z3.simplify(f2).hash()))
+            if c.prove(f2, 'unlisted column is crossed by at most 1e-3 of its longest side') == 'sat':
+                fail(c, 'column-missing', 'track %r omits crossed column %r' % ([t[0].name for t in track], gd.cols[k].name))
         zab = lambda e: z3.If(e >= 0, e, -e)
         gap = z3.Sum(*([lens[k] for k in unl] + [z3.RealVal(0)]))
-        conj = []
         for i in range(len(track) - 1):
             a_out, b_in = sym.lift_real(track[i][2][ax]), sym.lift_real(track[i + 1][1][ax])
-            conj.append(z3.And(zab(sym.lift_real(track[i][1][ax]) - S) <= zab(b_in - S), zab(a_out - b_in) <= gap))
+            f3 = z3.And(zab(sym.lift_real(track[i][1][ax]) - S) <= zab(b_in - S), zab(a_out - b_in) <= gap)
+            distinct.add(('order', z3.simplify(f3).hash()))
+            if c.prove(f3, 'ordered along the line; consecutive segments abut (up to dropped clips)') == 'sat':
+                fail(c, 'order-or-length', 'track %r' % [t[0].name for t in track])
         total = z3.Sum(*(lens + [z3.RealVal(0)]))
         got = z3.Sum(*([zab(sym.lift_real(t[2][ax]) - sym.lift_real(t[1][ax])) for t in track] + [z3.RealVal(0)]))
-        f3 = z3.And(*(conj + [got + gap == total]))
-        distinct.add(('order', z3.simplify(f3).hash()))
-        if c.prove(f3, 'ordered along the line, consecutive segments abut (up to dropped clips), lengths add up to the length inside the domain') == 'sat':
+        f4 = got + gap == total
+        distinct.add(('length', z3.simplify(f4).hash()))
+        if c.prove(f4, 'segment lengths add up to the length of the line inside the domain (minus dropped clips)') == 'sat':
             fail(c, 'order-or-length', 'track %r' % [t[0].name for t in track])
         if len(samples) < 1 and track:
             samples.append(dict(task='track', geo=geo, orient=orient, track=[(t[0].name, str(t[1])[:60], str(t[2])[:60]) for t in track]))
